@@ -671,7 +671,7 @@ def kh_main(args):
         inject(scratch)
         groups = {}
         for h in hs:
-            key = (tuple(h.get("features", ())), tuple(h.get("cbmc_args", ())), h.get("timeout", 1800), h.get("mem_gb", 12))
+            key = (tuple(h.get("features", ())), tuple(h.get("cbmc_args", ())), h.get("timeout", 1800), h.get("mem_gb", 6))
             groups.setdefault(key, []).append(h)
         out = {}
 
@@ -784,7 +784,7 @@ def run_check(prop, spec, tier, seed, scratch, workdir):
     for h in spec.get("kani", []):
         if tier not in h.get("tiers", ("quick", "thorough")):
             continue
-        key = (tuple(h.get("features", ())), tuple(h.get("cbmc_args", ())), h.get("timeout", 1800), h.get("mem_gb", 12), h.get("jobs", 0))
+        key = (tuple(h.get("features", ())), tuple(h.get("cbmc_args", ())), h.get("timeout", 1800), h.get("mem_gb", 6), h.get("jobs", 0))
         groups.setdefault(key, []).append(h)
     inj = None
     if groups:
